@@ -1,1 +1,498 @@
-//! c12_nts (ntpd): not implemented yet.
+//! C12 (NTS part, daemon level) — "an NTS source uses the version negotiated during key exchange".
+//!
+//! (The version state machine of a source is checked by ntp_proto/c12.rs. This file covers the
+//! one hand-over the protocol crate cannot see: the daemon's NTS spawners carry the outcome of the
+//! key exchange into the `SpawnAction`, from which `system.rs` builds the source.)
+//!
+//! Engine E-IN, every case one REAL key exchange: the real `NtsSpawner` / `NtsPoolSpawner`
+//! (configuration parsed from TOML by the daemon's own deserialiser: `ntp-version = 4 | 5 | "auto"`)
+//! talks over loopback TCP + TLS 1.3 to the harness KE server of `c35_nts::ke` (ntp-proto's real
+//! `KeyExchangeServer`, configured per case with the list of NTP versions it accepts). The
+//! `SourceCreateParameters` the spawner emits are turned into an `NtpSource` exactly as
+//! `system.rs::create_source` does (`NtpManager::new_source(addr, config, protocol_version,
+//! controller, nts, id)`), the source's timer is fired, and its poll datagrams are handed to a
+//! real `ntp_proto::Server` that shares the KE server's key set and accepts NTPv4 and NTPv5; the
+//! answer is fed back to the source.
+//!
+//! Enumerated: ntp-version in {4, 5, auto} x accepted list in {[4], [5], [4,5], [5,4], [3,4], [3]}
+//!   x spawner in {nts, nts-pool (count 1)} x enable-srv-resolution in {off, on (SRV lookup finds
+//!   nothing here and falls back to the direct lookup)} x the record the KE server hands out in
+//!   {127.0.0.1:123, none (client falls back to the KE server's own name)} = 144 cases.
+//!
+//! Oracle (statement + RFC 8915 4.1.2 "the server picks from what the client offered"; nothing is
+//! read back from the code under test): the client offers  4 -> {NTPv4},  5 -> {NTPv5},
+//! auto -> {NTPv5 preferred, NTPv4};  the KE server accepts NTPv4/NTPv5 as listed (NTPv3 has no
+//! NTS-KE protocol id);  negotiated = the first protocol of the client's offer the server accepts.
+//!   no common protocol -> the exchange fails, no source  (`C12:nts-source-without-common-version`)
+//!   otherwise          -> exactly one source             (`C12:nts-no-source-despite-common-version`)
+//!     its initial state is the PLAIN state of the negotiated version, not an upgrading one
+//!                                                         (`C12:nts-version-not-negotiated`;
+//!                                                          `C12:nts-auto-offer-preference` when it
+//!                                                          is the plain state of the OTHER common
+//!                                                          version: the offer order was not v5, v4)
+//!     every poll carries the negotiated version in its version bits  (`C12:nts-poll-version`)
+//!     it accepts answers of exactly that version                     (`C12:nts-expected-answer-version`)
+//!     the NTP server holding the KE server's keys answers the poll in that version, NTS
+//!     authenticated, and the source takes a measurement from the answer
+//!                                                         (`C12:nts-poll-not-served`)
+//!   `C12:nts-panic`.
+use std::net::{IpAddr, SocketAddr};
+use std::sync::Arc;
+
+use ntp_proto::{
+    ClockId, Measurement, NtpClock, NtpDuration, NtpLeapIndicator, NtpManager, NtpSourceAction,
+    NtpTimestamp, NtpVersion, ObservableSourceTimedata, PollInterval, ProtocolVersion, Server,
+    ServerAction, SourceConfig, SourceController, SynchronizationConfig,
+};
+use serde::Deserialize;
+use tokio::sync::mpsc;
+
+use super::c35_nts::ke::{self, Answer};
+use super::common::{self, Ctx};
+use crate::daemon::config::{NtpSourceConfig, ServerConfig};
+use crate::daemon::server::ServerStats;
+use crate::daemon::spawn::nts::NtsSpawner;
+use crate::daemon::spawn::nts_pool::NtsPoolSpawner;
+use crate::daemon::spawn::{SourceCreateParameters, SpawnAction, SpawnEvent, Spawner};
+
+const CFGS: [&str; 3] = ["4", "5", "auto"];
+const ACCS: [&[u8]; 6] = [&[4], &[5], &[4, 5], &[5, 4], &[3, 4], &[3]];
+const KINDS: [&str; 2] = ["nts", "nts-pool"];
+
+#[derive(Clone, Copy, Debug, PartialEq, Eq, Hash)]
+struct Case {
+    cfg: usize,
+    acc: usize,
+    kind: usize,
+    srv: bool,
+    /// the KE server hands out 127.0.0.1:123 (true) or no server/port record (false)
+    record: bool,
+}
+
+fn case_str(c: &Case) -> String {
+    format!(
+        "c12nts;cfg={};accept={};kind={};srv={};record={}",
+        CFGS[c.cfg],
+        ACCS[c.acc].iter().map(|v| v.to_string()).collect::<Vec<_>>().join(","),
+        KINDS[c.kind],
+        c.srv as u8,
+        c.record as u8
+    )
+}
+
+fn parse_case(t: &str) -> Option<Case> {
+    let parts: Vec<&str> = t.trim().split(';').collect();
+    if parts.first() != Some(&"c12nts") {
+        return None;
+    }
+    let kv = |k: &str| parts.iter().find_map(|p| p.strip_prefix(k)?.strip_prefix('='));
+    let acc_s = kv("accept")?;
+    Some(Case {
+        cfg: CFGS.iter().position(|c| *c == kv("cfg").unwrap_or(""))?,
+        acc: ACCS.iter().position(|a| a.iter().map(|v| v.to_string()).collect::<Vec<_>>().join(",") == acc_s)?,
+        kind: KINDS.iter().position(|c| *c == kv("kind").unwrap_or(""))?,
+        srv: kv("srv")? == "1",
+        record: kv("record")? == "1",
+    })
+}
+
+fn all_cases() -> Vec<Case> {
+    let mut v = Vec::new();
+    for cfg in 0..CFGS.len() {
+        for acc in 0..ACCS.len() {
+            for kind in 0..KINDS.len() {
+                for srv in [false, true] {
+                    for record in [true, false] {
+                        v.push(Case { cfg, acc, kind, srv, record });
+                    }
+                }
+            }
+        }
+    }
+    v
+}
+
+/// Statement level: what the client offers, in order of preference.
+fn offer_of(cfg: usize) -> &'static [u8] {
+    match CFGS[cfg] {
+        "4" => &[4],
+        "5" => &[5],
+        _ => &[5, 4],
+    }
+}
+
+/// The version the key exchange has to end with (None: no common protocol).
+fn negotiated(c: &Case) -> Option<u8> {
+    offer_of(c.cfg).iter().copied().find(|v| (*v == 4 || *v == 5) && ACCS[c.acc].contains(v))
+}
+
+fn ntp_version(v: u8) -> NtpVersion {
+    match v {
+        3 => NtpVersion::V3,
+        4 => NtpVersion::V4,
+        _ => NtpVersion::V5,
+    }
+}
+
+// ---------------------------------------------------------------------------------------------
+// rig
+// ---------------------------------------------------------------------------------------------
+#[derive(Deserialize)]
+struct Wrapper {
+    source: NtpSourceConfig,
+}
+
+fn source_config(c: &Case, port: u16) -> Result<NtpSourceConfig, String> {
+    let ver = if CFGS[c.cfg] == "auto" { "\"auto\"".to_string() } else { CFGS[c.cfg].to_string() };
+    let text = format!(
+        "[source]\nmode = \"{}\"\naddress = \"localhost:{port}\"\ncertificate-authority = \"{}\"\nntp-version = {ver}\nenable-srv-resolution = {}\n{}",
+        KINDS[c.kind],
+        ke::test_keys().join("testca.pem").display(),
+        c.srv,
+        if c.kind == 1 { "count = 1\n" } else { "" }
+    );
+    toml::from_str::<Wrapper>(&text).map(|w| w.source).map_err(|e| format!("{e} in {text:?}"))
+}
+
+struct Recorder {
+    tx: mpsc::UnboundedSender<Measurement>,
+}
+
+impl SourceController for Recorder {
+    fn handle_measurement(&mut self, measurement: Measurement) {
+        self.tx.send(measurement).ok();
+    }
+    fn set_usable(&mut self, _usable: bool) {}
+    fn desired_poll_interval(&self) -> PollInterval {
+        PollInterval::default()
+    }
+    fn observe(&self) -> ObservableSourceTimedata {
+        ObservableSourceTimedata::default()
+    }
+}
+
+#[derive(Clone)]
+struct Clock;
+
+impl NtpClock for Clock {
+    type Error = std::io::Error;
+    fn now(&self) -> Result<NtpTimestamp, Self::Error> {
+        Ok(NtpTimestamp::from_seconds_nanos_since_ntp_era(1000, 500))
+    }
+    fn set_frequency(&self, _f: f64) -> Result<NtpTimestamp, Self::Error> {
+        self.now()
+    }
+    fn get_frequency(&self) -> Result<f64, Self::Error> {
+        Ok(0.0)
+    }
+    fn step_clock(&self, _o: NtpDuration) -> Result<NtpTimestamp, Self::Error> {
+        self.now()
+    }
+    fn disable_ntp_algorithm(&self) -> Result<(), Self::Error> {
+        Ok(())
+    }
+    fn error_estimate_update(&self, _e: NtpDuration, _m: NtpDuration) -> Result<(), Self::Error> {
+        Ok(())
+    }
+    fn status_update(&self, _l: NtpLeapIndicator) -> Result<(), Self::Error> {
+        Ok(())
+    }
+}
+
+struct Rig {
+    rt: tokio::runtime::Runtime,
+    ke: ke::KeServer,
+}
+
+impl Rig {
+    fn new() -> Rig {
+        let rt = tokio::runtime::Builder::new_current_thread().enable_all().build().expect("runtime");
+        let ke = rt.block_on(async { ke::KeServer::start(tokio::time::Instant::now()).await });
+        Rig { rt, ke }
+    }
+}
+
+/// The NTP server of the same deployment: shares the KE server's key set, speaks v4 and v5.
+fn ntp_server(rig: &Rig) -> Result<Server<Clock>, String> {
+    let cfg: ServerConfig = toml::from_str("listen = \"127.0.0.1:123\"\naccept-ntp-versions = [4, 5]\n").map_err(|e| format!("server config: {e}"))?;
+    Ok(Server::new_internal(cfg.into(), Clock, Arc::default(), rig.ke.keyset.clone()))
+}
+
+#[derive(Default, Debug, Clone, PartialEq, Eq)]
+struct Outcome {
+    ke_connections: usize,
+    ke_completed: usize,
+    sources: usize,
+    state: String,
+    poll_versions: Vec<u8>,
+    answer_versions: Vec<u8>,
+    measurements: usize,
+    complete: bool,
+}
+
+fn version_bits(datagram: &[u8]) -> u8 {
+    datagram.first().map_or(0, |b| (b >> 3) & 0b111)
+}
+
+fn plain_state(v: u8) -> ProtocolVersion {
+    if v == 4 { ProtocolVersion::V4 } else { ProtocolVersion::V5 }
+}
+
+fn run_case(ctx: &Ctx, rig: &mut Rig, c: &Case) -> Outcome {
+    let trace = case_str(c);
+    let mut out = Outcome::default();
+    let accepted: Vec<NtpVersion> = ACCS[c.acc].iter().map(|v| ntp_version(*v)).collect();
+    rig.ke.set_accepted(&accepted);
+    let rec = if c.record { Answer::Hand(Some("127.0.0.1".to_string()), Some(123)) } else { Answer::Hand(None, None) };
+    rig.ke.set_script(vec![rec.clone(), rec.clone(), rec], vec![Answer::Refuse]);
+    let cfg = match source_config(c, rig.ke.port) {
+        Ok(c) => c,
+        Err(e) => {
+            ctx.violation("C12:harness-config", e, trace);
+            return out;
+        }
+    };
+    let (tx, mut rx) = mpsc::channel::<SpawnEvent>(8);
+    let rt = &rig.rt;
+    let r = common::catch(|| -> Result<bool, String> {
+        match cfg {
+            NtpSourceConfig::Nts(pair) => {
+                let mut sp = NtsSpawner::new(pair.first, SourceConfig::default()).map_err(|e| format!("NtsSpawner::new: {e}"))?;
+                rt.block_on(async { tokio::time::timeout(std::time::Duration::from_secs(30), sp.try_spawn(&tx)).await })
+                    .map_err(|_| "try_spawn did not return within 30 s".to_string())?
+                    .map_err(|e| format!("try_spawn: {e}"))?;
+                Ok(sp.is_complete())
+            }
+            NtpSourceConfig::NtsPool(pair) => {
+                let mut sp = NtsPoolSpawner::new(pair.first, SourceConfig::default()).map_err(|e| format!("NtsPoolSpawner::new: {e}"))?;
+                rt.block_on(async { tokio::time::timeout(std::time::Duration::from_secs(30), sp.try_spawn(&tx)).await })
+                    .map_err(|_| "try_spawn did not return within 30 s".to_string())?
+                    .map_err(|e| format!("try_spawn: {e}"))?;
+                Ok(sp.is_complete())
+            }
+            _ => Err("configuration did not parse as an NTS source".to_string()),
+        }
+    });
+    rt.block_on(async {
+        for _ in 0..4 {
+            tokio::task::yield_now().await;
+        }
+    });
+    let conns = rig.ke.take_log();
+    out.ke_connections = conns.len();
+    out.ke_completed = conns.iter().filter(|c| c.result.is_ok()).count();
+    match r {
+        Ok(Ok(complete)) => out.complete = complete,
+        Ok(Err(e)) | Err(e) => {
+            ctx.violation("C12:nts-panic", format!("spawner failed: {e}"), trace);
+            return out;
+        }
+    }
+    let mut created = Vec::new();
+    while let Ok(ev) = rx.try_recv() {
+        let SpawnAction::Create(params) = ev.action;
+        if let SourceCreateParameters::Ntp(p) = params {
+            created.push(p);
+        }
+    }
+    out.sources = created.len();
+    let want = negotiated(c);
+    let Some(v) = want else {
+        if !created.is_empty() || out.complete {
+            ctx.violation(
+                "C12:nts-source-without-common-version",
+                format!(
+                    "client offers {:?}, KE server accepts {:?}: no common protocol, yet {} source(s) created (spawner complete: {})",
+                    offer_of(c.cfg), ACCS[c.acc], created.len(), out.complete
+                ),
+                trace,
+            );
+        }
+        return out;
+    };
+    if created.len() != 1 {
+        ctx.violation(
+            "C12:nts-no-source-despite-common-version",
+            format!("client offers {:?}, KE server accepts {:?}: NTPv{v} must be negotiated, but {} sources were created ({} KE connections, {} completed)", offer_of(c.cfg), ACCS[c.acc], created.len(), out.ke_connections, out.ke_completed),
+            trace,
+        );
+        return out;
+    }
+    let mut p = created.pop().expect("one source");
+    out.state = format!("{:?}", p.protocol_version);
+    if p.protocol_version != plain_state(v) {
+        let other: Option<u8> = offer_of(c.cfg).iter().copied().find(|o| *o != v && ACCS[c.acc].contains(o));
+        let class = if other.map(plain_state) == Some(p.protocol_version) { "C12:nts-auto-offer-preference" } else { "C12:nts-version-not-negotiated" };
+        ctx.violation(
+            class,
+            format!(
+                "ntp-version = {}, KE server accepts {:?}: the key exchange negotiates NTPv{v}; the source is created in state {:?} instead of {:?}",
+                CFGS[c.cfg], ACCS[c.acc], p.protocol_version, plain_state(v)
+            ),
+            trace.clone(),
+        );
+    }
+    if !p.protocol_version.is_expected_incoming_version(ntp_version(v)) || p.protocol_version.is_expected_incoming_version(ntp_version(9 - v)) {
+        ctx.violation(
+            "C12:nts-expected-answer-version",
+            format!("NTPv{v} negotiated; a source in state {:?} accepts NTPv4 answers: {}, NTPv5 answers: {}", p.protocol_version, p.protocol_version.is_expected_incoming_version(NtpVersion::V4), p.protocol_version.is_expected_incoming_version(NtpVersion::V5)),
+            trace.clone(),
+        );
+    }
+    // the source, built exactly as system.rs::create_source builds it
+    let (mtx, mut mrx) = mpsc::unbounded_channel();
+    let manager = NtpManager::new(SynchronizationConfig::default(), Arc::new([]));
+    let built = common::catch(|| manager.new_source(p.addr, p.config, p.protocol_version, Recorder { tx: mtx }, p.nts.take(), p.id));
+    let (mut source, initial) = match built {
+        Ok(x) => x,
+        Err(e) => {
+            ctx.violation("C12:nts-panic", format!("new_source panicked: {e}"), trace);
+            return out;
+        }
+    };
+    let mut server = match ntp_server(rig) {
+        Ok(s) => s,
+        Err(e) => {
+            ctx.violation("C12:harness-config", e, trace);
+            return out;
+        }
+    };
+    let mut stats = ServerStats::default();
+    let client_ip: IpAddr = "127.0.0.1".parse().unwrap();
+    let mut actions: Vec<NtpSourceAction> = initial.collect();
+    for round in 0..3u32 {
+        if round > 0 || !actions.iter().any(|a| matches!(a, NtpSourceAction::Send(_))) {
+            match common::catch(|| source.handle_timer().collect::<Vec<_>>()) {
+                Ok(a) => actions.extend(a),
+                Err(e) => {
+                    ctx.violation("C12:nts-panic", format!("handle_timer panicked: {e}"), trace);
+                    return out;
+                }
+            }
+        }
+        let polls: Vec<Vec<u8>> = actions.drain(..).filter_map(|a| if let NtpSourceAction::Send(b) = a { Some(b) } else { None }).collect();
+        if polls.is_empty() {
+            ctx.violation("C12:nts-poll-version", format!("the source did not send a poll on timer event {round}"), trace.clone());
+            return out;
+        }
+        for poll in polls {
+            let pv = version_bits(&poll);
+            out.poll_versions.push(pv);
+            if pv != v {
+                ctx.violation(
+                    "C12:nts-poll-version",
+                    format!("NTPv{v} negotiated during key exchange; poll {round} of the source carries version {pv} (state at creation {})", out.state),
+                    trace.clone(),
+                );
+            }
+            // the NTP server that shares the KE server's keys
+            let mut buf = vec![0u8; 4096];
+            let recv = NtpTimestamp::from_seconds_nanos_since_ntp_era(1000, 400 + round);
+            let answer = match server.handle(client_ip, recv, &poll, &mut buf, &mut stats) {
+                ServerAction::Respond { message } => Some(message.to_vec()),
+                ServerAction::Ignore => None,
+            };
+            let before = out.measurements;
+            if let Some(a) = &answer {
+                out.answer_versions.push(version_bits(a));
+                let send = NtpTimestamp::from_seconds_nanos_since_ntp_era(1000, 300 + round);
+                let back = NtpTimestamp::from_seconds_nanos_since_ntp_era(1000, 600 + round);
+                let _ = common::catch(|| source.handle_incoming(a, send, back).count());
+                while mrx.try_recv().is_ok() {
+                    out.measurements += 1;
+                }
+            }
+            // (a two-way source hands its controller one Measurement per direction)
+            let served = answer.as_ref().is_some_and(|a| version_bits(a) == v && a.len() > 48) && out.measurements > before;
+            if !served {
+                ctx.violation(
+                    "C12:nts-poll-not-served",
+                    format!(
+                        "NTPv{v} negotiated; poll {round} (version {pv}, {} bytes) sent to the NTP server holding the KE server's keys: {}, measurements taken from it: {}",
+                        poll.len(),
+                        answer.as_ref().map_or("ignored".to_string(), |a| format!("answered with version {} ({} bytes)", version_bits(a), a.len())),
+                        out.measurements - before
+                    ),
+                    trace.clone(),
+                );
+            }
+        }
+    }
+    out
+}
+
+fn replay(ctx: &Ctx, trace: &str) -> String {
+    let Some(c) = parse_case(trace) else {
+        return format!("unparseable trace {trace:?}");
+    };
+    let mut rig = Rig::new();
+    let o = run_case(ctx, &mut rig, &c);
+    format!("negotiated must be {:?}; observed {o:?}", negotiated(&c))
+}
+
+#[test]
+fn check() {
+    let ctx = Ctx::new("C12");
+    if let Some(t) = common::replay_trace() {
+        let a = replay(&ctx, &t);
+        let b = replay(&ctx, &t);
+        common::report_replay("C12", &a, &b, ctx.violation_count() > 0);
+        return;
+    }
+    ctx.rule(
+        "NTS part of C12 at daemon level: ntp-version in {4, 5, auto} (parsed from TOML by the daemon) x KE server accepted list in {[4],[5],[4,5],[5,4],[3,4],[3]} x \
+         spawner in {NtsSpawner, NtsPoolSpawner(count 1)} x enable-srv-resolution {off, on} x handed-out record {127.0.0.1:123, none}; every case one real key exchange \
+         (loopback TCP + TLS 1.3, ntp-proto's KeyExchangeServer), the emitted SourceCreateParameters turned into an NtpSource as system.rs does, 3 timer events, every poll \
+         served by a real ntp-proto Server sharing the KE key set and fed back. Distinct & non-trivial = a distinct case.",
+    );
+    ctx.assume("client offer per configuration: 4 -> NTPv4, 5 -> NTPv5, auto -> NTPv5 preferred then NTPv4 (ntp.toml(5): auto uses NTPv5 where the server supports it); RFC 8915 4.1.2: the server answers with one protocol out of the client's list — here the first of the client's list it accepts");
+    ctx.assume("system.rs::create_source passes addr, config, protocol_version, nts, id of the SourceCreateParameters unchanged to NtpManager::new_source (read; the harness does the same call)");
+    ctx.assume("SRV mode: the SRV lookup of _ntske._tcp.localhost finds nothing here and resolve_ke falls back to the direct lookup (as the crate's own test allow_srv_direct_name_resolution assumes)");
+    let cases = all_cases();
+    ctx.set("cases_planned", cases.len() as u64);
+    common::par_for_with(
+        cases.len() as u64,
+        2,
+        || None::<Rig>,
+        |rig, i| {
+            let rig = rig.get_or_insert_with(Rig::new);
+            let c = &cases[i as usize];
+            let o = run_case(&ctx, rig, c);
+            ctx.inc("evaluations");
+            ctx.add("transitions", 1 + o.poll_versions.len() as u64 * 2);
+            ctx.distinct(common::hash_of(c));
+            ctx.add("ke_connections", o.ke_connections as u64);
+            ctx.add("ke_exchanges_completed", o.ke_completed as u64);
+            ctx.add("sources_created", o.sources as u64);
+            ctx.add("polls_sent", o.poll_versions.len() as u64);
+            ctx.add("polls_answered", o.answer_versions.len() as u64);
+            ctx.add("measurements_taken", o.measurements as u64);
+            match negotiated(c) {
+                None => ctx.inc("cases_without_common_version"),
+                Some(4) => ctx.inc("cases_negotiating_v4"),
+                Some(_) => ctx.inc("cases_negotiating_v5"),
+            }
+            if CFGS[c.cfg] == "auto" && negotiated(c).is_some() {
+                ctx.inc(&format!("auto_cases_in_state_{}", o.state.split([' ', '{']).next().unwrap_or("")));
+            }
+            if o.sources == 0 {
+                ctx.inc("cases_without_source");
+            }
+            if i % 11 == 3 {
+                ctx.sample(format!("{} -> {o:?}", case_str(c)));
+            }
+            // determinism: every 7th case twice
+            if i % 7 == 0 {
+                let tmp = Ctx::new("C12");
+                let o2 = run_case(&tmp, rig, c);
+                ctx.inc("determinism_reruns");
+                if o2 != o {
+                    ctx.violation("C12:harness-nondeterminism", format!("{o:?} vs {o2:?}"), case_str(c));
+                }
+            }
+        },
+    );
+    ctx.set("states", ctx.get("evaluations"));
+    ctx.exhaustive(ctx.get("evaluations") == cases.len() as u64);
+    ctx.finish();
+}
